@@ -120,6 +120,13 @@ std::vector<cfg_t> const &configs()
        "colvar {\n  name c\n  cartesian {\n    atoms { atomNumbers 1 2 }\n  }\n}\n"
        "metadynamics {\n  name m\n  colvars c\n  hillWeight 0.1\n  hillWidth 1.0\n"
        "  newHillFrequency 2\n  useGrids off\n}\n"},
+      // staged restraints: the state carries the current stage, which indexes the schedule (lambdaSchedule: a vector)
+      {"harmonic_staged",
+       std::string("colvarsTrajFrequency 0\n") + CV_D +
+           "harmonic {\n  name hk\n  colvars d\n  centers 1.0\n  forceConstant 1.0\n  targetForceConstant 5.0\n"
+           "  targetNumSteps 2\n  lambdaSchedule 0.0 0.2 0.6 1.0\n}\n"
+           "harmonic {\n  name hc\n  colvars d\n  centers 1.0\n  targetCenters 3.0\n  forceConstant 2.0\n"
+           "  targetNumSteps 2\n  targetNumStages 3\n}\n"},
   };
   return c;
 }
